@@ -53,6 +53,9 @@ def prog_job(args):
         case = {"seed": seed}
         try:
             m2 = Module()
+            from amaranth.hdl import ClockDomain
+            cd2 = ClockDomain("sync")
+            m2.domains.sync = cd2
             fsms = gen_prog.build(m2, items)
             dummy = Signal(name="dummy"); m2.d.sync += dummy.eq(~dummy)
             # signals the DSL created itself: FSM state registers (sync), ongoing() signals and og (comb)
@@ -87,10 +90,17 @@ def prog_job(args):
             sim.add_clock(Period(MHz=1))
             steps = []
 
+            rsts = []
+
             async def tb(ctx):
                 for _s in range(n_steps):
                     for s in inputs:
                         ctx.set(s, gen_expr.rand_value(rng, s.shape()))
+                    # the domain's reset is asserted at some edges: every sync register (FSM state registers included:
+                    # "an FSM restarts in its initial state") must take its initial value there
+                    r = 1 if (not witness and rng.random() < 0.2) else 0
+                    ctx.set(cd2.rst, r)
+                    rsts.append(r)
                     env = [ctx.get(s) for s in allsigs]
                     await ctx.tick()
                     env2 = [ctx.get(s) for s in allsigs]
@@ -110,8 +120,14 @@ def prog_job(args):
         rl = "(resetless" + " 0" * (len(allsigs) + 1) + ")"
         envs_c = [e + [0] for st in steps for e in st]
         envs_s = [st[0] + [0] for st in steps]
+        case["rsts"] = rsts
+        hist["sync_steps_with_reset"] = hist.get("sync_steps_with_reset", 0) + sum(rsts)
         case["req_comb"] = f"(proc {ctx} {inits} {rl} comb (rst none) (seq {stm['comb']}) (prog {prog['comb']}) " + " ".join(ser_env(e) for e in envs_c) + ")"
-        case["req_sync"] = f"(proc {ctx} {inits} {rl} sync (rst 0) (seq {stm['sync']}) (prog {prog['sync']}) " + " ".join(ser_env(e) for e in envs_s) + ")"
+        # one request per value of the reset (the protocol takes one reset value per request); merged again in `judge`
+        mk_sync = lambda r: (f"(proc {ctx} {inits} {rl} sync (rst {r}) (seq {stm['sync']}) (prog {prog['sync']}) "
+                             + " ".join(ser_env(e) for e, rr in zip(envs_s, rsts) if rr == r) + ")")
+        case["req_sync"] = mk_sync(0)
+        case["req_sync1"] = mk_sync(1) if any(rsts) else None
         case["envs_c"] = envs_c
         case["prog"] = prog
         out.append(case)
@@ -172,7 +188,15 @@ def judge(chk, case, resps):
         chk.violation(f"building or simulating a legal DSL program raises {case['error'][0]}: {case['error'][1]}",
                       dict(base, kind="raises", error=case["error"], classes=[]))
         return
-    rc, rs = parse_proc(resps[0]), parse_proc(resps[1])
+    rc, rs0 = parse_proc(resps[0]), parse_proc(resps[1])
+    rs1 = parse_proc(resps[2]) if len(resps) > 2 else []
+    rs = None
+    if rs0 is not None and rs1 is not None:
+        it0, it1 = iter(rs0), iter(rs1)
+        try:
+            rs = [next(it1) if r else next(it0) for r in case["rsts"]]
+        except StopIteration:
+            rs = None
     if rc is None or rs is None:
         chk.not_shown("driver could not evaluate a program", dict(base, responses=[r[:300] for r in resps],
                                                                     req=case["req_comb"][:2000]))
@@ -231,14 +255,15 @@ def run(chk):
             reqs = []
             for c in job["cases"]:
                 if "error" not in c:
-                    reqs += [c["req_comb"], c["req_sync"]]
+                    reqs += [c["req_comb"], c["req_sync"]] + ([c["req_sync1"]] if c.get("req_sync1") else [])
             resps = chk.driver.ask(reqs)
             k = 0
             for c in job["cases"]:
                 if "error" in c:
                     judge(chk, c, None)
                 else:
-                    judge(chk, c, resps[k:k + 2]); k += 2
+                    n = 3 if c.get("req_sync1") else 2
+                    judge(chk, c, resps[k:k + n]); k += n
     chk.cov["rule"] = ("random Module-DSL programs (nesting <= 4: If/Elif/Else chains up to 4 tests incl. multi-bit, signed and constant "
                        "conditions; Switch with int, negative/unrepresentable int, multi-pattern and whitespace string patterns, Default, "
                        "cases after Default; comb and sync assignments mixed in one tree; targets from the C05 target grammar) simulated "
